@@ -27,7 +27,8 @@
 -/
 import Cog.Sem.GoCodec
 import Cog.Passes.Str
-namespace Cog.Sem
+namespace Cog.Sem.Defaults
+open Cog.Sem
 open Cog.IR
 
 /-- outcome of generating, compiling and running a constructor -/
@@ -578,4 +579,4 @@ def goPkgCompiles (fuel : Nat) (ss : Schemas) (pkg : String) : Option (String ×
         | _ => none
       else none
 
-end Cog.Sem
+end Cog.Sem.Defaults
